@@ -5,6 +5,9 @@ import json, sys
 pid = sys.argv[1]
 start = int(sys.argv[2]) if len(sys.argv) > 2 else 1          # number of the first refactoring (later rounds: 4, 7, ..)
 ks = "%d, %d, %d" % (start, start + 1, start + 2)
+hard = len(sys.argv) > 3 and sys.argv[3] == "hard"
+HARD = """
+  5. go beyond the most obvious clean-ups (early returns, let-else, renaming, named constants on their own): aim for STRUCTURAL changes a maintainer might still commit - a different loop form (iterator adapters such as zip / chain / take / skip / rev / fold / try_for_each / chunks / windows, or the reverse: an explicit index loop), different slicing APIs (split_at, split_first, first_chunk, get(..), strip_prefix, array conversions with try_from / try_into), different control flow (match on tuples, matches!, combinators such as map_or / and_then / ok_or / then_some / filter, bool::then), moving code between functions (extract or inline helpers, methods instead of free functions, const generics), a different but equivalent intermediate representation (tuple or small struct instead of separate locals, Option instead of flag + value), equivalent arithmetic or comparisons written differently. Every such change must still be exactly equivalent for every input.""" if hard else ""
 for l in open('/verif/properties.jsonl'):
     p = json.loads(l)
     if p['id'] == pid:
@@ -25,7 +28,7 @@ Your task: produce THREE different, independent BEHAVIOUR-PRESERVING refactoring
   1. leave the observable behaviour exactly as it is for EVERY input, call order and configuration (same results, same errors and error kinds, same events in the same order, same bytes written, no new panics - in particular do not introduce indexing, slicing, unwrap or arithmetic that could panic where the original returned an error, and keep every bounds check that guards a slice),
   2. compile without new warnings and pass the complete existing test suite: `cd /tmp/ben-{pid} && CARGO_TARGET_DIR=/tmp/ben-{pid}/target cargo test --workspace --no-fail-fast --offline` must report 0 failures,
   3. be the kind of clean-up a maintainer would really commit, and be NON-trivial (15-70 changed lines): e.g. rename locals and reorder independent statements; replace a `match` by `if let`/`let else` or the reverse; turn nested ifs into early returns; hoist a repeated expression into a local or a named constant; replace a hand-written loop by an iterator chain or the reverse (only where bounds stay checked); use an equivalent std API (`copy_from_slice` for `clone_from_slice`, `u16::from_be_bytes` for a byteorder read after the same length check, `get(..).ok_or(..)?` for check-then-index with the same error); extract a private helper function or inline one; flatten or split a condition; change `x >= n` into `!(x < n)` or reorder the operands of a commutative operation; introduce an intermediate struct/tuple. Combine several of these in one refactoring.
-  4. differ from the other two in WHICH functions they touch and WHICH techniques they use.
+  4. differ from the other two in WHICH functions they touch and WHICH techniques they use.{HARD}
 
 Be careful and conservative about equivalence: if you are not sure a rewrite is equivalent for every input (integer overflow, empty inputs, error precedence when two checks could both fail, evaluation order with side effects), do not use it.
 
